@@ -69,3 +69,37 @@ Example C03_examples :
   [/\ gate dim a b = Ok (Some 0%nat), gate dim a c = Err SpaTypeError, gate dim p c = Ok (Some 1%nat)
     & sp_dot dim a b = Ok 11%Z].
 Proof. by vm_compute. Qed.
+
+(* ---- the type-level model of the whole operand matrix (Model/Dispatch.v, shared with C01): what the property
+   demands of every operator x operand-family cell.  [expect] is what the tie compares the implementation with. *)
+From NSpa Require Import Model.Dispatch Theory.DispatchLaws.
+
+Theorem C03_operands_of_different_vocabularies_are_rejected_for_every_operator_and_operand_family :
+  forall dim op ka kb i j same_alg dims_differ,
+    i <> j -> ka <> KArr -> kb <> KArr ->
+    expect dim op ka kb (TVoc i) (TVoc j) same_alg dims_differ = MustReject.
+Proof. exact different_vocabularies_are_rejected. Qed.
+Print Assumptions C03_operands_of_different_vocabularies_are_rejected_for_every_operator_and_operand_family.
+
+Theorem C03_vocabulary_of_another_dimensionality_is_rejected :
+  forall dim op ka kb i d same_alg dims_differ,
+    dim i <> d -> ka <> KArr -> kb <> KArr ->
+    expect dim op ka kb (TAnyDim d) (TVoc i) same_alg dims_differ = MustReject /\
+    expect dim op ka kb (TVoc i) (TAnyDim d) same_alg dims_differ = MustReject.
+Proof. exact dimension_mismatch_is_rejected. Qed.
+Print Assumptions C03_vocabulary_of_another_dimensionality_is_rejected.
+
+Theorem C03_same_vocabulary_is_accepted_and_the_result_carries_it :
+  forall dim op ka kb i same_alg,
+    ka <> KArr -> kb <> KArr -> supported op ka kb (TVoc i) = true ->
+    expect dim op ka kb (TVoc i) (TVoc i) same_alg false = MustAccept (result_type op (TVoc i)).
+Proof. exact same_vocabulary_is_accepted. Qed.
+Print Assumptions C03_same_vocabulary_is_accepted_and_the_result_carries_it.
+
+Theorem C03_bare_array_never_combines_arithmetically_with_a_pointer_operand :
+  forall dim op ka ta tb same_alg dims_differ,
+    arithmetic op = true -> is_ptr_kind ka = true ->
+    expect dim op ka KArr ta tb same_alg dims_differ = MustReject /\
+    expect dim op KArr ka ta tb same_alg dims_differ = MustReject.
+Proof. exact bare_array_is_rejected. Qed.
+Print Assumptions C03_bare_array_never_combines_arithmetically_with_a_pointer_operand.
